@@ -99,6 +99,10 @@ func val(tag string) *big.Int {
 // Native reports whether the harness runs natively (replay) rather than under the symbolic executor.
 func Native() bool { return true }
 
+// IsLocalTime reports whether t is a wall-clock value in the node's own time zone (time.Unix and friends give such values;
+// UTC() does not): what it prints and its calendar fields then depend on where the node runs.
+func IsLocalTime(t time.Time) bool { return t.Location() == time.Local }
+
 func AnyInt64(tag string) int64                  { return val(tag).Int64() }
 func AnyInt64In(tag string, lo, hi int64) int64   { return val(tag).Int64() }
 func AnyUint64(tag string) uint64                { return val(tag).Uint64() }
